@@ -317,10 +317,16 @@ Qed.
 
 Lemma hstep_inv s o : HInv s -> HInv (hstep s o).
 Proof.
-  intros HI. destruct o as [f| |w]; unfold HInv; cbn [hstep h_changed h_obj].
+  intros HI. destruct o as [f| |w|]; unfold HInv; cbn [hstep h_changed h_obj].
   - discriminate.
   - intros _. exact I.
   - intros Hc. destruct (hquery_good s w HI Hc) as [_ G]. exact G.
+  - intros Hc. specialize (HI Hc).
+    set (o := match h_obj s with Some o => o | None => new_cobj end).
+    assert (HO : OGood s o).
+    { subst o. destruct (h_obj s); [exact HI|]. repeat split; discriminate. }
+    destruct HO as (A & B & C & D). unfold OGood in *. cbn [o_arr o_min o_max o_mean h_filt h_vals].
+    split; [|auto]. intros a [= <-]. case_eq (o_arr o); [intros a E; now apply A|reflexivity].
 Qed.
 
 Lemma hrun_inv ops : forall s, HInv s -> HInv (hrun s ops).
@@ -357,13 +363,52 @@ Theorem child_history ops : forall s, HInv s ->
           (hrun_out s ops) (spec_out s ops).
 Proof.
   induction ops as [|o r IH]; intros s HI; [constructor|].
-  destruct o as [f| |w]; cbn [hrun_out spec_out].
+  destruct o as [f| |w|]; cbn [hrun_out spec_out].
   - apply IH, (hstep_inv s (HFilter f)), HI.
   - apply IH, (hstep_inv s HRefresh), HI.
   - constructor; [|apply IH, (hstep_inv s (HQuery w)), HI].
     cbn [fst snd]. split; [reflexivity|]. intros Hc.
     apply (hquery_good s w HI). now destruct (h_changed s).
+  - apply IH, (hstep_inv s HRead), HI.
 Qed.
+
+(* ---- features of mapped basins: reads and queries in any order ------------------------ *)
+Lemma select_all {A} (l : list A) : select (map (fun _ => true) l) l = l.
+Proof. induction l as [|x l IH]; simpl; [reflexivity|now rewrite IH]. Qed.
+
+Lemma rq_frame ops : forall s, forallb is_rq ops = true ->
+  h_vals (hrun s ops) = h_vals s /\ h_filt (hrun s ops) = h_filt s
+  /\ h_changed (hrun s ops) = h_changed s.
+Proof.
+  unfold hrun. induction ops as [|o r IH]; intros s H; [auto|].
+  cbn [forallb] in H. apply andb_prop in H as [Ho Hr]. cbn [fold_left].
+  destruct (IH (hstep s o) Hr) as (A & B & C). rewrite A, B, C.
+  destruct o; try discriminate; auto.
+Qed.
+
+(* whatever the basin map (identity, subset, repeats, permutation, ...) and
+   whatever the order of reading the data and asking for summaries: every
+   summary is that of the mapped events *)
+Theorem basin_history bm vals ops w :
+  forallb is_rq ops = true ->
+  fst (hquery (hrun (binit bm vals) ops) w) = spec_b bm vals w.
+Proof.
+  intros H. destruct (rq_frame ops (binit bm vals) H) as (A & B & C).
+  pose proof (child_fresh (mapped bm vals) ops w) as HF. cbv zeta in HF.
+  unfold binit in *. rewrite HF by (rewrite C; reflexivity).
+  rewrite A, B. unfold spec_q, spec_b. cbn [hinit h_vals h_filt].
+  now rewrite select_all.
+Qed.
+
+Example c20_basin_nonvacuous :
+  let vals := [Fin 8; NaN; Fin 24; Fin (-8); PInf; Fin 16] in
+  let bm := [0; 4; 4; 4; 1; 5] in
+  hrun_out (binit bm vals) [HQuery 1; HRead; HQuery 0; HQuery 2; HQuery 1]
+  = [(true, QF PInf); (true, QF (Fin 8)); (true, QM MPInf); (true, QF PInf)]
+  /\ nanmax_l vals = PInf /\ nanmin_l vals = Fin (-8)
+  /\ hrun_out (binit [0; 1; 1; 3; 3; 5] vals) [HQuery 0] = [(true, QF (Fin (-8)))]
+  /\ hrun_out (binit [0; 1; 1; 2; 2; 5] vals) [HQuery 0] = [(true, QF (Fin 8))].
+Proof. vm_compute. repeat split. Qed.
 
 Example c20_child_nonvacuous :
   let vals := [Fin 8; NaN; Fin 24; Fin (-8); PInf] in
